@@ -43,7 +43,7 @@ CLAIMS = {
         "note": TRUST,
     },
     "C06": {
-        "text": "maximize is compared with an independent reference cascade over tables re-derived from data/likelySubtags.json on every run: every CLDR entry K -> V of the five key shapes other than language-only by a symbolic row index (all rows of a table at once, no loop), every valid (script?, region?) with an undetermined language, and every valid (script?, region?) with the concrete languages zh, sr and qaa, against the reference's own binary search; the bool/None clause and the LanguageIdentifier wrapper are asserted too. Lookups of a symbolic language in the 7143-row table are outside the claim (see level_note); the rows of that table are decided under C18.",
+        "text": "maximize is compared with an independent reference over tables re-derived from data/likelySubtags.json on every run: every CLDR entry K -> V by a symbolic row index (all rows of a table at once, no loop) - the five small key shapes in the quick tier, all 7142 language-only keys in the thorough tier - and the lookup cascade for every valid (script?, region?) with an undetermined language and with the concrete languages zh, sr and qaa against the reference's own binary search; the bool/None clause and the LanguageIdentifier wrapper are asserted too. The cascade for an arbitrary symbolic language is outside the claim (see level_note).",
         "note": TRUST + " Reference tables come from tools/cldr_ref.py (own JSON -> integer packer); C18 decides the compiled tables equal them.",
     },
     "C07": {
@@ -83,7 +83,7 @@ CLAIMS = {
         "note": TRUST,
     },
     "C14": {
-        "text": "character_direction is decided against a model re-derived from the 710 CLDR layout files: every locale directory whose answer needs no likely script by symbolic row index in both feature configurations, the script-less rows of RTL-listed languages and the script-decides / non-RTL-language / variants-irrelevant clauses on arbitrary symbolic identifiers in the configuration without likelysubtags.",
+        "text": "character_direction is decided against a model re-derived from the 710 CLDR layout files: every locale directory by symbolic row index in both feature configurations (the script-less rows of RTL-listed languages with likelysubtags on are thorough-tier: they reach the 7143-row table), plus the script-decides / non-RTL-language / variants-irrelevant clauses on arbitrary symbolic identifiers (quick: without likelysubtags; thorough: with).",
         "note": TRUST + " Reference derived by tools/cldr_ref.py.",
     },
     "C15": {
